@@ -94,7 +94,36 @@ def judge(case, impl, model, spec, ctx):
     mo = [untok(t) for t in model.split()] if model else []
     out = []
     ops = case.meta["ops"]
-    all_closed_idx = None
+    # independent reference: live objects and relayed bytes as the history defines them
+    sess, tun, latest = [], [], {}
+    inb, outb = [0, 0], [0, 0]
+    refs = []
+    for op in ops:
+        if op[0] == 1:
+            sess.append([op[1], True])
+        elif op[0] == 2 and op[1] < len(sess) and sess[op[1]][1]:
+            tun.append([op[1], True])
+            latest.setdefault(op[1], []).append(len(tun) - 1)
+            inb[sess[op[1]][0]] += max(op[2], 8)
+            outb[sess[op[1]][0]] += op[3]
+        elif op[0] == 3 and op[1] < len(sess):
+            sess[op[1]][1] = False
+            for t in tun:
+                if t[0] == op[1]:
+                    t[1] = False
+        elif op[0] == 7 and latest.get(op[1]):
+            tun[latest[op[1]].pop()][1] = False
+        refs.append([sum(1 for x in sess if x[1] and x[0] == 0), sum(1 for x in sess if x[1] and x[0] == 1),
+                     sum(1 for t in tun if t[1]), 0, inb[0], inb[1], outb[0], outb[1]])
+    for n, (op, r) in enumerate(zip(ops, io)):
+        if op[0] == 4 and r[1:9] != refs[n]:
+            names = ["client_sessions{HTTP1}", "client_sessions{HTTP2}", "outbound_tcp_sockets", "outbound_udp_sockets",
+                     "inbound_traffic_bytes{HTTP1} (uploaded)", "inbound_traffic_bytes{HTTP2} (uploaded)",
+                     "outbound_traffic_bytes{HTTP1} (downloaded)", "outbound_traffic_bytes{HTTP2} (downloaded)"]
+            k = next(i for i in range(8) if r[1 + i] != refs[n][i])
+            out.append(("violation", "history %s, snapshot at operation %d: %s = %d, live objects / relayed bytes: %d"
+                        % (ops[:n + 1][-6:], n, names[k], r[1 + k], refs[n][k])))
+            return out
     for n, (op, r) in enumerate(zip(ops, io)):
         m = mo[n] if n < len(mo) else None
         what = "history %s, operation %d %s" % (ops[:n + 1][-6:], n, op)
@@ -115,13 +144,8 @@ def judge(case, impl, model, spec, ctx):
                 out.append(("violation", "%s: protocol_type label values are not the documented http1 / http2 / http3" % what))
             elif m and (r[3] != m[3] or r[4] != m[4]):
                 out.append(("violation", "%s: exported text says %d sessions / %d TCP sockets, live objects: %d / %d" % (what, r[3], r[4], m[3], m[4])))
-        elif op[0] == 4 and m:
-            names = ["client_sessions{HTTP1}", "client_sessions{HTTP2}", "outbound_tcp_sockets", "outbound_udp_sockets",
-                     "inbound_traffic_bytes{HTTP1}", "inbound_traffic_bytes{HTTP2}", "outbound_traffic_bytes{HTTP1}", "outbound_traffic_bytes{HTTP2}"]
-            for k in range(1, 9):
-                if r[k] != m[k]:
-                    out.append(("violation", "%s: %s = %d, live objects / relayed bytes: %d" % (what, names[k - 1], r[k], m[k])))
-                    break
+        elif op[0] == 4 and m and r[1:9] != m[1:9]:
+            out.append(("disagree", "%s: snapshot %s differs from the bookkeeping model %s" % (what, r[1:9], m[1:9])))
         elif op[0] == 2 and (r[1] != 200 or r[2] != op[3]):
             out.append(("disagree", "%s: the transfer itself did not complete (status %d, %d bytes)" % (what, r[1], r[2])))
         if out:
